@@ -111,7 +111,7 @@ func codecCase(t *testing.T, run *vh.Run, c *Case) {
 		if bytes.Equal(marshalN(got), c.Bytes) {
 			exact = "true"
 		}
-		run.Add(fmt.Sprintf("CCodecN %s\n  %s %s", vh.Str(string(c.Bytes)), vh.ListOf(got, coqNEntry), exact), c, len(got) > 0)
+		run.Add(fmt.Sprintf("CCodecN %s\n  %s %s", coqBytes(c.Bytes), vh.ListOf(got, coqNEntry), exact), c, len(got) > 0)
 		run.Count("codec_cases", "nflog/exact="+exact)
 		return
 	}
@@ -125,7 +125,7 @@ func codecCase(t *testing.T, run *vh.Run, c *Case) {
 	if bytes.Equal(marshalS(got), c.Bytes) {
 		exact = "true"
 	}
-	run.Add(fmt.Sprintf("CCodecS %s\n  %s %s", vh.Str(string(c.Bytes)), vh.ListOf(got, coqSil), exact), c, len(got) > 0)
+	run.Add(fmt.Sprintf("CCodecS %s\n  %s %s", coqBytes(c.Bytes), vh.ListOf(got, coqSil), exact), c, len(got) > 0)
 	run.Count("codec_cases", "silences/exact="+exact)
 }
 
@@ -252,7 +252,7 @@ func mutateCase(t *testing.T, run *vh.Run, c *Case) {
 		hi := min(lo+chunk, len(items))
 		cc := *c
 		cc.Muts = c.Muts[lo:hi]
-		run.Add(fmt.Sprintf("%s %s\n  [%s]", ctor, vh.Str(string(base)), strings.Join(items[lo:hi], ";\n   ")), cc, true)
+		run.Add(fmt.Sprintf("%s %s\n  [%s]", ctor, coqBytes(base), strings.Join(items[lo:hi], ";\n   ")), cc, true)
 	}
 }
 
